@@ -412,13 +412,16 @@ def mkTableFromFmt (f : Fmt) (records : List Record) (limits : Option (Option In
     | Option.none => Gen.C12.footerPrefix ++ natToDec records.length ++ Gen.C12.footerSuffix
   ⟨records, header, footer, ⟨g.fields, cols, limF, limL, Option.none⟩⟩
 
-/-- `table.remove_columns(names)`: the live format object loses the columns of the named fields; widths
-already negotiated and the skipped-lines flag stay as they are -/
+/-- `table.remove_columns(names)`: the format gets fresh (un-fitted) columns without those of the named
+fields (fix adb5d03: the widths fitted to the old visible records are forgotten); the skipped-lines flag
+stays as it is -/
 def removeCols (t : Tbl) (names : List (List Char)) : Tbl :=
-  { t with fmt := { t.fmt with cols := t.fmt.cols.filter fun c => !names.contains c.field.name } }
+  { t with fmt := { t.fmt with
+      cols := (t.fmt.cols.map fun c => { c with width := Option.none }).filter fun c => !names.contains c.field.name } }
 
 /-- `table.fmt.set_limits((a, b))` on the live format object: both limits are replaced, the
-skipped-lines flag (fix 3b63cdc) and the negotiated widths (fix 1d22ea8) are forgotten -/
+skipped-lines flag (fix 3b63cdc) and the negotiated widths (fix 1d22ea8) are forgotten: the format gets
+fresh, un-fitted columns (fix df4a139), a print in progress keeps the columns it started with -/
 def setLimits (t : Tbl) (a b : Option Int) : Tbl :=
   { t with fmt := { t.fmt with cols := t.fmt.cols.map fun c => { c with width := Option.none },
                                limF := a, limL := b, anySkipped := Option.none } }
